@@ -321,7 +321,8 @@ def run_check(prop, pid, tier, seed):
     }
     ev = {"property_id": pid, "tier": tier, "seed": seed, "level": "proof", "coverage": cov,
           "assumptions": getattr(prop, "assumptions", []), "wall_s": timer.s(), "violations": len(real)}
-    write_json(os.path.join(VERIF, "evidence", "%s.json" % pid), ev)
+    ev_dir = os.path.join(VERIF, "evidence") if common.REPO == "/repo" else os.path.join(BUILD, "evidence_alt")
+    write_json(os.path.join(ev_dir, "%s.json" % pid), ev)
 
     if not real:
         print("OK property=%s tier=%s cases=%d theorems=%d/%d wall=%.1fs" %
